@@ -5,6 +5,8 @@ import itertools
 import numpy as np
 from hypothesis import strategies as st
 
+from ..core import sampled_from  # noqa: E402
+
 from .. import build, meshgen, refmodel
 from ..core import Failure
 
@@ -99,7 +101,7 @@ def enumerate_cases(tier, shard, nshards, ctx):
 @st.composite
 def _case(draw, tier):
     big = tier != "quick"
-    kind = draw(st.sampled_from(["any", "any", "any", "subdiv", "big"] if big else ["any", "any", "any", "subdiv"]))
+    kind = draw(sampled_from(["any", "any", "any", "subdiv", "big"] if big else ["any", "any", "any", "subdiv"]))
     if kind == "big":
         mesh = draw(meshgen.hull_mesh(30, 110, partial=True))
     else:
@@ -116,7 +118,7 @@ def _case(draw, tier):
         nodes = [[-180.0 + 360.0 * (c + 0.25) / nlon, -40.0 + 20.0 * r] for r in range(nrow) for c in range(nlon)]
         faces = [[r0 * nlon + c, r0 * nlon + c + 1, (r0 + 1) * nlon + c + 1, (r0 + 1) * nlon + c] for c in range(c0, c0 + k)]
         mesh = {"nodes": nodes, "faces": faces, "family": "strip-extract-orphan-nodes"}
-    gap_max = draw(st.sampled_from([1, 1, 1, 2, 9, 40])) if "orphan" not in mesh.get("family", "") else 1
+    gap_max = draw(sampled_from([1, 1, 1, 2, 9, 40])) if "orphan" not in mesh.get("family", "") else 1
     if gap_max > 1:
         # a table that names only some of the nodes of a longer node list (regional extract keeping the
         # numbering of the full mesh): node i moves to the running sum of drawn gaps, the nodes in between are unused
@@ -134,17 +136,17 @@ def _case(draw, tier):
         mesh["family"] = mesh.get("family", "?") + "-orphan-nodes"
     return {
         "mesh": mesh,
-        "extra_width": draw(st.sampled_from([0, 0, 0, 1, 2])),
+        "extra_width": draw(sampled_from([0, 0, 0, 1, 2])),
         "access": draw(st.permutations([0, 1, 2, 3, 4])),
-        "layout": draw(st.sampled_from(["C", "C", "F", "view"])),
+        "layout": draw(sampled_from(["C", "C", "F", "view"])),
         # a second grid of the same table shape (faces renumbered / corners rotated) deriving its
         # edges between two of this grid's first accesses
-        "companion_after": draw(st.sampled_from([None, None, 0, 1, 2, 3])),
+        "companion_after": draw(sampled_from([None, None, 0, 1, 2, 3])),
         "companion_rot": draw(st.integers(1, 7)),
         # the source ships its own edge table (own order, either direction per edge): the derived face-edge table must
         # then speak that numbering
-        "supplied_edges": draw(st.sampled_from([None, None, None, 5, 23])),
-        "subset": draw(st.sampled_from([None, None, None, True])) and {"faces": draw(st.lists(st.integers(0, 200), min_size=1, max_size=12)), "derive_first": draw(st.booleans())},
+        "supplied_edges": draw(sampled_from([None, None, None, 5, 23])),
+        "subset": draw(sampled_from([None, None, None, True])) and {"faces": draw(st.lists(st.integers(0, 200), min_size=1, max_size=12)), "derive_first": draw(st.booleans())},
     }
 
 
